@@ -24,7 +24,10 @@ tvars == <<tid, l, h, nv>>
 ToSet(q) == {q[j] : j \in 1..Len(q)}
 Norm(e) == CASE e.k = "SB"  -> [e EXCEPT !.inp = ToSet(@)]
              [] e.k = "DE"  -> [e EXCEPT !.vals = ToSet(@)]
-             [] e.k = "CB"  -> IF e.f \in {"set_data", "get_data"} THEN [e EXCEPT !.arg = ToSet(@)] ELSE e
+             [] e.k = "CB"  -> IF e.f \in {"set_data", "get_data"} THEN [e EXCEPT !.arg = ToSet(@)]
+                               ELSE IF e.f = "get_related_entities"
+                                 THEN [e EXCEPT !.created = ToSet(@), !.q = ToSet(@), !.nodes = ToSet(@), !.edges = ToSet(@), !.rel = ToSet(@)]
+                               ELSE e
              [] e.k = "END" -> [e EXCEPT !.names = ToSet(@)]
              [] e.k = "EG"  -> [e EXCEPT !.nodes = ToSet(@), !.edges = ToSet(@)]
              [] OTHER       -> e
